@@ -265,6 +265,50 @@ Proof.
     eapply IH; [|eassumption|exact Hr]. eapply sstep_ok; eassumption.
 Qed.
 
+(* under the LIFO precondition a history of valid calls never trips a check *)
+Lemma live_ptr_ok_stack s live i b : sinv s live -> nth_error live i = Some b -> stack_ptr_ok c (b_addr b) = true.
+Proof.
+  intros Hi Hn. unfold sinv in Hi.
+  destruct (live_addr_facts _ _ _ _ i b Hi Hn) as (_ & Hw & _ & Hr).
+  destruct (chain_bound _ _ _ _ Hi) as (_ & _ & _ & HF). rewrite Forall_forall in HF.
+  destruct (HF b (nth_error_In _ _ Hn)) as (_ & _ & Hm & _).
+  unfold stack_ptr_ok. rewrite Hw. rewrite land_mask_mod by apply Hsal_pow2. rewrite Hm.
+  apply andb_true_intro. split; [apply Z.ltb_lt; lia | reflexivity].
+Qed.
+
+Lemma sstep_total s live o : sinv s live -> sop_usize o -> sop_lifo o -> exists st', sstep c (s, live) o = Some st'.
+Proof.
+  intros Hi Hu Hl. destruct o as [n | i | i n | | a v]; cbn [sstep].
+  - destruct (stack_alloc c s n). eexists. reflexivity.
+  - cbn [sop_lifo] in Hl. subst i. destruct live as [|b r]; cbn [nth_error]; [eexists; reflexivity|].
+    destruct (stack_dealloc_top s b r Hi) as (s1 & -> & _). eexists. reflexivity.
+  - destruct (nth_error live i) as [b|] eqn:Hn; [|eexists; reflexivity].
+    cbn [sop_lifo] in Hl. cbn [sop_usize] in Hu. unfold usize in Hu.
+    destruct (Z.eq_dec n 0) as [-> | Hn0].
+    + specialize (Hl eq_refl). subst i. destruct live as [|b0 r]; cbn in Hn; [discriminate|]. inversion Hn; subst b0.
+      destruct (stack_dealloc_top s b r Hi) as (s1 & Hde & _).
+      pose proof Hi as Hi'. unfold sinv in Hi'. destruct (live_addr_facts _ _ _ _ O b Hi' eq_refl) as (Hbnz & _).
+      unfold stack_realloc. apply Z.eqb_neq in Hbnz. rewrite Hbnz. cbn [Z.eqb]. rewrite Hde. eexists. reflexivity.
+    + destruct (stack_realloc_ok s live i b n Hi Hn ltac:(lia)) as [Hnone | (s1 & q & Hre & _)].
+      * exfalso. unfold stack_realloc in Hnone.
+        pose proof Hi as Hi'. unfold sinv in Hi'. destruct (live_addr_facts _ _ _ _ i b Hi' Hn) as (Hbnz & _).
+        apply Z.eqb_neq in Hbnz. rewrite Hbnz in Hnone. apply Z.eqb_neq in Hn0. rewrite Hn0 in Hnone.
+        rewrite (live_ptr_ok_stack s live i b Hi Hn) in Hnone.
+        destruct (_ =? s_prev s) in Hnone; [destruct (_ || _) in Hnone; discriminate|]. destruct (n >? b_size b) in Hnone; discriminate.
+      * rewrite Hre. apply Z.eqb_neq in Hn0. rewrite Hn0. destruct (q =? 0); eexists; reflexivity.
+  - eexists. reflexivity.
+  - destruct (existsb (word_in_blk a) live); eexists; reflexivity.
+Qed.
+
+Lemma srun_total ops : forall s live, sinv s live -> Forall sop_usize ops -> Forall sop_lifo ops ->
+  exists s' live', srun c (s, live) ops = Some (s', live') /\ sinv s' live'.
+Proof.
+  induction ops as [|o r IH]; intros s live Hi Hu Hl; cbn [srun].
+  - eexists. eexists. split; [reflexivity | exact Hi].
+  - inversion Hu; subst. inversion Hl; subst. destruct (sstep_total s live o Hi H1 H3) as ([s1 l1] & E). rewrite E.
+    apply IH; try assumption. eapply sstep_ok; eassumption.
+Qed.
+
 Lemma sinv_good s live : sinv s live -> good_blocks (s_base c) (s_size c) (s_align c) live.
 Proof.
   intros Hi. unfold sinv in Hi. destruct (chain_bound _ _ _ _ Hi) as (_ & _ & Hcs & HF).
@@ -286,6 +330,15 @@ Proof.
   { eapply srun_ok; [exact Hc | | exact Hd | exact Hr]. unfold sinv, stack_init. cbn. auto. }
   split; [eapply sinv_good; eassumption|].
   intros ->. exact Hi.
+Qed.
+
+Theorem stack_total_proof : forall c ops, scfg_ok c -> Forall sop_usize ops -> Forall sop_lifo ops ->
+  exists s live, srun c (stack_init, []) ops = Some (s, live) /\
+                 good_blocks (s_base c) (s_size c) (s_align c) live.
+Proof.
+  intros c ops Hc Hu Hl.
+  destruct (srun_total c Hc ops stack_init [] ltac:(unfold sinv, stack_init; cbn; auto) Hu Hl) as (s & live & Hr & Hi).
+  exists s, live. split; [exact Hr | eapply sinv_good; eassumption].
 Qed.
 
 (* alloc immediately followed by dealloc gives back exactly the previous offsets *)
